@@ -1,6 +1,6 @@
 (** C10 — changing representation loses nothing: the obligations, written out in full. *)
 From Coq Require Import List NArith ZArith String.
-From SK Require Import lib.LGraph lib.StrJoin model.C10_Model proof.C10_Proof proof.C10_Hydrogen proof.C10_Routes proof.C10_GmlWrite proof.C10_HRound proof.C10_Routes2 proof.C10_Reindex proof.C10_MolGraph proof.C10_Smart proof.C10_GmlEH proof.C10_Select proof.C10_MolOk proof.C10_Full.
+From SK Require Import lib.LGraph lib.StrJoin model.C10_Model proof.C10_Proof proof.C10_Hydrogen proof.C10_Routes proof.C10_GmlWrite proof.C10_HRound proof.C10_Routes2 proof.C10_Reindex proof.C10_MolGraph proof.C10_Smart proof.C10_GmlEH proof.C10_Select proof.C10_MolOk proof.C10_Full proof.C10_Attrs.
 Import ListNotations.
 Local Open Scope Z_scope.
 
@@ -321,3 +321,16 @@ Theorem C10_two_routes_full :
     (forall u v, adj A u v = adj I u v /\ adj B u v = adj I u v).
 Proof. exact two_routes_full_b. Qed.
 Print Assumptions C10_two_routes_full.
+
+(** NXToGML.transform(attributes=[...]) with any list that contains "charge": more atoms may move from the context section to
+    left/right (because their hcount, aromaticity, element or atom_map differ between the two sides) but the rule still reads
+    back to exactly the atoms, charges and (before, after) bond dictionaries of c. *)
+Theorem C10_changed_attributes_roundtrip :
+  forall (c : gr) (s : asel), its_ok c = true -> k_ch s = true ->
+    let I' := snd (gml_to_nx (nx_to_gml_sel s (fst (its_decompose c)) (snd (its_decompose c)) c false false)) in
+    (forall n, has_node I' n = has_node c n) /\
+    (forall n a, label c n = Some a ->
+       label I' n = Some (gml_node n (tg_el (tG_of a)) (tg_ch (tG_of a)) (tg_ch (tH_of a)))) /\
+    (forall u v, adj I' u v = adj c u v).
+Proof. exact attributes_roundtrip. Qed.
+Print Assumptions C10_changed_attributes_roundtrip.
